@@ -454,6 +454,34 @@ def task_ion_backbone(pr, repo):
                    'and bases alike; magnitude = |q_ion| * Coulomb energy', And(*conj))
     pr.explore(ex, t_ion, 'set_ion_determinants')
 
+    def t_two_ions(ex, ctx):
+        # two ions of one element in one chain print the same label (no residue number in a hetero label): two determinants, each within
+        # the single-determinant bound - never one summed row
+        tg = sym_group(repo, 'tg', x='real', y='real', z='real')
+        ions = [sym_group(repo, 'ion%d' % k, x='real', y='real', z='real') for k in range(2)]
+        for k, io in enumerate(ions):
+            io.attrs['label'] = 'ZN   ZN A'
+            io.attrs['charge'] = R('q_ion')
+            io.attrs['atom'] = record('ion_atom%d' % k, A, type='hetatm', res_num=301 + k, chain_id='A', name='ZN')
+        conf = record('conf', None)
+        conf.attrs['get_titratable_groups'] = Builtin_list([tg])
+        conf.attrs['get_ions'] = Builtin_list(ions)
+        es = [R('coulomb_e0'), R('coulomb_e1')]
+        for e_ in es:
+            ctx.assume(e_ >= 0)
+        p = record('P', None, coulomb_cutoff2_squared='real')
+        version = record('version', None, parameters=p)
+        version.attrs['calculate_pair_weight'] = Builtin('pw', lambda ex, *a, **k: R('w'))
+        calls = []
+        version.attrs['calculate_coulomb_energy'] = Builtin('ce', lambda ex, *a, **k: (calls.append(1), es[len(calls) - 1])[1])
+        ex.call_function(repo.func(D + 'set_ion_determinants'), [conf, version])
+        d = dets(tg, 'coulomb')
+        qi = R('q_ion')
+        ok = len(d) == len(calls) and len(d) <= 2
+        ctx.oblige('two equally labelled ions: one determinant per ION within reach (value -q_ion * its own Coulomb energy), never a '
+                   'summed row', And(ok, *[x.attrs['value'] == -1 * qi * es[i] for i, x in enumerate(d)]) if ok else False)
+    pr.explore(ex, t_two_ions, 'set_ion_determinants two ions')
+
     for btype in ('BBC', 'BBN'):
         for elem in ('H', 'O'):
             def t_bb(ex, ctx, btype=btype, elem=elem):
@@ -835,10 +863,39 @@ def task_version_hb(pr, repo, ex=None):
     pr.explore(ex, t_hb, 'version H-bond parameters')
 
 
+def task_coupling_effects(pr, repo):
+    """CE: in every covalently coupled system the groups whose label is returned as penalised are exactly the groups that are marked
+    'discarded due to coupling' (so that a group whose determinants are removed from its partners is not itself still reported with
+    its own half of the pair), and exactly one group per system keeps titrating."""
+    from pyvc.core import Builtin
+    ex = Executor(repo)
+    CCn = 'propka.conformation_container.ConformationContainer'
+    fi = repo.func(CCn + '.coupling_effects')
+    pr.under_contract(fi)
+    Gc = repo.cls('propka.group.Group')
+    layouts = {'N+ and CYS (base + acid, acid has the highest pKa)': [('N+    1 A', 1.0, 8.0), ('CYS   1 A', -1.0, 9.5)],
+               'N+ and ASP (base has the highest pKa)': [('N+    7 I', 1.0, 7.6), ('ASP   7 I', -1.0, 2.5)],
+               'two acids': [('OCO   1 L', -1.0, 4.0), ('OCO   2 L', -1.0, 3.0)],
+               'three bases': [('N31   1 L', 1.0, 9.0), ('N32   2 L', 1.0, 7.0), ('N33   3 L', 1.0, 8.0)]}
+    for what, spec in layouts.items():
+        def thunk(ex, ctx, what=what, spec=spec):
+            gs = [record('g%d' % i, Gc, label=l, charge=q, pka_value=pk, coupled_titrating_group=None,
+                         atom=record('a%d' % i, repo.cls('propka.atom.Atom'), type='atom', res_num=i)) for i, (l, q, pk) in enumerate(spec)]
+            conf = record('conf', repo.cls(CCn), parameters=record('P', None, shared_determinants=False), groups=list(gs))
+            ex.contracts[CCn + '.get_coupled_systems'] = lambda ex_, c_, f_, a, k, so: [list(gs)]
+            ex.contracts[CCn + '.get_covalently_coupled_groups'] = lambda ex_, c_, f_, a, k, so: list(gs)
+            labels = ex.call_function(fi, [], self_obj=conf)
+            marked = [g.attrs['label'] for g in gs if g.attrs['coupled_titrating_group'] is not None]
+            ctx.oblige('CE[%s]: penalised labels == labels of the groups marked as discarded; all but one group of the system' % what,
+                       sorted(labels) == sorted(marked) and len(marked) == len(gs) - 1
+                       and all(g.attrs['coupled_titrating_group'] is not g for g in gs))
+        pr.explore(ex, thunk, 'coupling_effects ' + what)
+
+
 def run(pr, repo):
     ground_facts(pr)
     pr.parallel([(task_scalars, ()), (task_desolvation, ()), (task_reorganization, ()), (task_coulomb_pairs, ()),
-                 (task_ion_backbone, ()), (task_iterative, ()), (task_exceptions, ()), (task_exception_dispatch, ()), (task_version_dispatch, ()),
+                 (task_ion_backbone, ()), (task_iterative, ()), (task_exceptions, ()), (task_exception_dispatch, ()), (task_version_dispatch, ()), (task_coupling_effects, ()),
                  # the signs fixed when a determinant is created must survive the temporary swaps of the coupling analysis:
                  # every swap is undone exactly (C02/C15 obligations on swap_interactions / transfer_determinant)
                  (C02.task_swap, ()), (C02.task_swap_once, ()),
